@@ -168,6 +168,7 @@ func Gen(t *rapid.T, o Options) *Layout {
 	// field-name table: one type per name so same-named fields agree everywhere
 	nnames := rapid.IntRange(6, 12).Draw(t, "nnames")
 	var scalarNames, allNames []string
+	scalarOnlyVal := map[string]bool{}
 	for i := 0; i < nnames; i++ {
 		f := &field{name: fmt.Sprintf("f%d", i), provides: map[int]string{}}
 		k := rapid.IntRange(0, 19).Draw(t, "ftype")
@@ -221,7 +222,16 @@ func Gen(t *rapid.T, o Options) *Layout {
 			f.typ, f.named = "[["+e+"!]]", e
 		case k == 19:
 			m.feat["excluded:nested-entity-list"] = true
-			f.typ, f.named = "[[Int!]]", "Int"
+			if nv > 0 && rapid.Bool().Draw(t, "nestedval") {
+				// a list of lists of a value type that holds scalars only (no entity fetch below
+				// the inner list, which is the excluded class)
+				v := valNames[nv-1]
+				scalarOnlyVal[v] = true
+				f.typ, f.named = "[["+v+"!]]", v
+				m.feat["nested-value-list"] = true
+			} else {
+				f.typ, f.named = "[[Int!]]", "Int"
+			}
 		default:
 			f.typ, f.named = "String", "String"
 		}
@@ -346,7 +356,7 @@ func Gen(t *rapid.T, o Options) *Layout {
 			i := rapid.IntRange(0, len(names)-1).Draw(t, "vfpick")
 			p := m.table[names[i]]
 			// value types must not contain value types (keeps replication closure small) nor abstract types
-			if isScalarName(p.named) || strings.HasPrefix(p.named, "E") {
+			if isScalarName(p.named) || strings.HasPrefix(p.named, "E") && !scalarOnlyVal[n] {
 				ot.fieldSet[p.name] = clone(p)
 			}
 			names = append(names[:i], names[i+1:]...)
